@@ -31,7 +31,7 @@ fn col_domain(c: &str, reduced: bool) -> Vec<(Option<String>, RVal)> {
     let text = |s: &str| (Some(format!("{:?}", s)), RVal::Text(s.to_string()));
     let full: Vec<(Option<String>, RVal)> = match c {
         "i" | "j" => vec![(None, RVal::Null), int(0), int(1), int(2), int(-1), int(i64::MAX), int(i64::MIN)],
-        "r" | "s" => vec![(None, RVal::Null), real("0.0", 0.0), real("1.0", 1.0), real("1.5", 1.5), real("2.0", 2.0), real("-1.0", -1.0), real("1e308", 1e308), real("-0.0", -0.0)],
+        "r" | "s" => vec![(None, RVal::Null), real("0.0", 0.0), real("1.0", 1.0), real("1.5", 1.5), real("2.0", 2.0), real("-1.0", -1.0), real("1e308", 1e308), real("-0.0", -0.0), real("-0.5", -0.5), real("-1.5", -1.5)],
         "t" | "u" => vec![(None, RVal::Null), text(""), text("a"), text("b"), text("A"), text("é"), text("10"), text("9")],
         "b" => vec![(None, RVal::Null), (Some("true".into()), RVal::Bool(true)), (Some("false".into()), RVal::Bool(false))],
         "a" => vec![(None, RVal::Null), (Some("[]".into()), RVal::Array(vec![])), (Some("[1,2]".into()), RVal::Array(vec![RVal::Int(1), RVal::Int(2)])), (Some("[null,3]".into()), RVal::Array(vec![RVal::Null, RVal::Int(3)]))],
@@ -594,8 +594,9 @@ pub fn run(ctx: &Ctx) -> i32 {
     // reference tree: three arithmetic / comparison / boolean operators in all five shapes
     {
         let arith = [Bin::Add, Bin::Sub, Bin::Mul, Bin::Div];
-        let leaves3 = [E::Col("i".into()), E::Lit(Lit::Int(7)), E::Col("j".into()), E::Lit(Lit::Int(3))];
         let mut chains: Vec<E> = Vec::new();
+        // (a second leaf set ends in two literals: nothing may be computed ahead of the column it applies to)
+        for leaves3 in [[E::Col("i".into()), E::Lit(Lit::Int(7)), E::Col("j".into()), E::Lit(Lit::Int(3))], [E::Col("i".into()), E::Col("j".into()), E::Lit(Lit::Int(3)), E::Lit(Lit::Int(2))], [E::Lit(Lit::Int(4)), E::Lit(Lit::Int(3)), E::Col("i".into()), E::Lit(Lit::Int(2))]] {
         for o1 in arith {
             for o2 in arith {
                 for o3 in arith {
@@ -610,6 +611,7 @@ pub fn run(ctx: &Ctx) -> i32 {
                     chains.push(E::Bin(Bin::Or, b(E::Bin(Bin::Eq, b(E::Bin(o1, b(l(0)), b(l(1)))), b(l(3)))), b(E::Bin(Bin::And, b(E::Col("b".into())), b(E::Bin(Bin::Gt, b(E::Bin(o3, b(l(2)), b(l(3)))), b(l(1))))))));
                 }
             }
+        }
         }
         let mut n_m = 0u64;
         for e in &chains {
